@@ -12,7 +12,9 @@ import (
 	"context"
 	"encoding/json"
 	"fmt"
+	"math"
 	"time"
+	"unicode/utf8"
 
 	"github.com/Comcast/sheens/core"
 	"github.com/Comcast/sheens/match"
@@ -37,7 +39,18 @@ type persistCase struct {
 // canonicalType: nil, bool, float64, string, []interface{}, map[string]interface{} all the way down
 func canonicalType(x interface{}) (bool, string) {
 	switch v := x.(type) {
-	case nil, bool, float64, string:
+	case nil, bool:
+		return true, ""
+	case float64:
+		if math.IsNaN(v) || math.IsInf(v, 0) {
+			return false, "float64 that JSON cannot write"
+		}
+		return true, ""
+	case string:
+		// a string that is not valid UTF-8 comes back from JSON as a different string
+		if !utf8.ValidString(v) {
+			return false, "string that is not valid UTF-8"
+		}
 		return true, ""
 	case []interface{}:
 		for _, y := range v {
@@ -47,7 +60,10 @@ func canonicalType(x interface{}) (bool, string) {
 		}
 		return true, ""
 	case map[string]interface{}:
-		for _, y := range v {
+		for k, y := range v {
+			if !utf8.ValidString(k) {
+				return false, "key that is not valid UTF-8"
+			}
 			if ok, why := canonicalType(y); !ok {
 				return false, why
 			}
